@@ -10,6 +10,12 @@
    * pack/unpack (janet_chan_pack = marshal, C09) is an injective encoding: an item is represented by itself;
    * `abandon f` is anything that reschedules fiber `f` while it waits (ev/cancel, deadline, another select clause firing):
      it bumps `sched_id`, which is all the channel code can observe.
+   * Session 3: every `janet_schedule` made by the channel code (direct take, janet_thread_chan_cb, local close wake-up) pushes a
+     JanetTask onto the run queue (`janet_vm.spawn`) of the fiber's loop; all run queues are kept in one list `runq`, the queue of
+     loop `l` is the sub-sequence of tasks with `thread = l` (janet_q_push at the tail, janet_q_pop at the head: a task may be run
+     only if no earlier task has the same thread); `resume i` = one iteration of the run loop of janet_loop1 (pop, compare
+     `expected_sched_id`, janet_continue).  A fiber that called ev/take / a parked ev/give sits in janet_await (`waiting`) until
+     a task resumes it; a waiting fiber performs no channel operation.  `log` is the event log (`gave` / `got`).
    Core Lean only (linked into the driver). -/
 namespace JanetModel.Thread
 
@@ -26,6 +32,9 @@ structure Cfg where
   /-- janet_thread_chan_cb, forwarding a stale wake-up to the next pending reader / writer: the forwarded message carries the
       NEXT entry's own `sched_id` (`reader.sched_id` / `writer.sched_id`), not the stale one it arrived with -/
   forwardOwnSched : Bool := true
+  /-- janet_loop1 bumps `fiber->sched_id` once more when it resumes a task (after the `expected_sched_id` filter): whatever the
+      fiber registered before this resumption belongs to a wait that is over -/
+  resumeBumps : Bool := true
   deriving Repr, DecidableEq
 
 abbrev Item := Nat
@@ -54,6 +63,31 @@ def Msg.item (m : Msg) : Option Item :=
   | .read x => some x
   | _ => none
 
+/-- value a queued JanetTask resumes its fiber with: a channel item (ev/take result), a wake-up of kind `k` (give completed /
+    channel closed), or anything else (`janet_cancel` by ev/cancel or a deadline, another select clause) -/
+inductive TVal | item (x : Item) | wake (k : Kind) | other
+  deriving DecidableEq, Repr
+
+/-- JanetTask in `janet_vm.spawn` of loop `thread`; `sched` = expected_sched_id -/
+structure Task where
+  thread : Nat
+  fiber : Nat
+  sched : Nat
+  val : TVal
+  deriving DecidableEq, Repr
+
+def Task.item (t : Task) : Option Item :=
+  match t.val with
+  | .item x => some x
+  | _ => none
+
+/-- event log: `gave f x` = ev/give of fiber f accepted x; `got f x` = ev/take in fiber f returned x (fiber resumed with x) -/
+inductive Ev | gave (f : Nat) (x : Item) | got (f : Nat) (x : Item)
+  deriving DecidableEq, Repr
+
+def setb (g : Nat → Bool) (f : Nat) (b : Bool) : Nat → Bool := fun h => if h = f then b else g h
+def setn (g : Nat → Nat) (f : Nat) (n : Nat) : Nat → Nat := fun h => if h = f then n else g h
+
 structure St where
   limit : Nat
   items : List Item := []
@@ -63,7 +97,7 @@ structure St where
   flight : List Msg := []
   /-- fiber -> current sched_id -/
   sched : Nat → Nat := fun _ => 0
-  /-- (fiber, item): fiber was resumed with the item (janet_schedule(fiber, x)) -/
+  /-- (fiber, item): the item was scheduled to the fiber (janet_schedule(fiber, x)); the fiber is resumed with it by `resume` -/
   delivered : List (Nat × Item) := []
   /-- items accepted by a give (ev/give did not raise) -/
   sent : List Item := []
@@ -73,6 +107,18 @@ structure St where
   staleReads : Nat := 0
   /-- ghost: fibers resumed by a close / write wake-up: (fiber, kind) -/
   woken : List (Nat × Kind) := []
+  /-- run queues (janet_vm.spawn) of all loops, in push order -/
+  runq : List Task := []
+  /-- fiber is suspended in janet_await (after ev/take, or a parked ev/give) -/
+  waiting : Nat → Bool := fun _ => false
+  /-- fiber -> its thread (set when it starts to wait) -/
+  home : Nat → Nat := fun _ => 0
+  /-- ghost: (fiber, item) of run-queue tasks skipped by janet_loop1 because `expected_sched_id != fiber->sched_id` -/
+  dropped : List (Nat × Item) := []
+  /-- ghost: number of `abandon` actions that hit a waiting fiber -/
+  abandons : Nat := 0
+  /-- event log -/
+  log : List Ev := []
 
 def init (limit : Nat) : St := { limit := limit }
 
@@ -84,6 +130,7 @@ inductive Act
   | abandon (fiber : Nat)
   | handle (i : Nat)
   | close (thread : Nat)
+  | resume (i : Nat)
   deriving DecidableEq, Repr
 
 /-- remove the `i`-th element -/
@@ -102,26 +149,34 @@ def give (s : St) (t f : Nat) (x : Item) : St :=
     match s.readers with
     | r :: rs =>
       { s with readers := rs, flight := s.flight ++ [⟨r.thread, r.fiber, r.sched, .read x⟩],
-               sent := s.sent ++ [x], handed := s.handed ++ [(r.fiber, x)] }
+               sent := s.sent ++ [x], handed := s.handed ++ [(r.fiber, x)], log := s.log ++ [.gave f x] }
     | [] =>
       if s.items.length + 1 > s.limit then
-        { s with items := s.items ++ [x], writers := s.writers ++ [⟨t, f, s.sched f⟩], sent := s.sent ++ [x] }
+        { s with items := s.items ++ [x], writers := s.writers ++ [⟨t, f, s.sched f⟩], sent := s.sent ++ [x],
+                 log := s.log ++ [.gave f x], waiting := setb s.waiting f true, home := setn s.home f t }
       else
-        { s with items := s.items ++ [x], sent := s.sent ++ [x] }
+        { s with items := s.items ++ [x], sent := s.sent ++ [x], log := s.log ++ [.gave f x] }
 
-/-- janet_channel_pop_with_lock, threaded channel (ev/take) -/
+/-- janet_channel_pop_with_lock, threaded channel (ev/take) + cfun_channel_pop: an item obtained directly is scheduled to the
+    calling fiber itself (`janet_schedule(janet_vm.root_fiber, item)`), then the fiber awaits in every case -/
 def take (s : St) (t f : Nat) : St :=
-  if s.closed then { s with woken := s.woken ++ [(f, .close)], sched := bump s.sched f }
+  if s.closed then { s with woken := s.woken ++ [(f, .close)], sched := bump s.sched f,
+                            runq := s.runq ++ [⟨t, f, s.sched f + 1, .wake .close⟩],
+                            waiting := setb s.waiting f true, home := setn s.home f t }
   else
     match s.items with
-    | [] => { s with readers := s.readers ++ [⟨t, f, s.sched f⟩] }
+    | [] => { s with readers := s.readers ++ [⟨t, f, s.sched f⟩], waiting := setb s.waiting f true, home := setn s.home f t }
     | x :: xs =>
       match s.writers with
       | w :: ws =>
         { s with items := xs, delivered := s.delivered ++ [(f, x)], handed := s.handed ++ [(f, x)], sched := bump s.sched f,
-                 writers := ws, flight := s.flight ++ [⟨w.thread, w.fiber, w.sched, .write⟩] }
+                 writers := ws, flight := s.flight ++ [⟨w.thread, w.fiber, w.sched, .write⟩],
+                 runq := s.runq ++ [⟨t, f, s.sched f + 1, .item x⟩],
+                 waiting := setb s.waiting f true, home := setn s.home f t }
       | [] =>
-        { s with items := xs, delivered := s.delivered ++ [(f, x)], handed := s.handed ++ [(f, x)], sched := bump s.sched f }
+        { s with items := xs, delivered := s.delivered ++ [(f, x)], handed := s.handed ++ [(f, x)], sched := bump s.sched f,
+                 runq := s.runq ++ [⟨t, f, s.sched f + 1, .item x⟩],
+                 waiting := setb s.waiting f true, home := setn s.home f t }
 
 /-- cfun_channel_close: every pending entry of another thread gets a CLOSE message; entries of the closing thread are
     resumed directly (if the fiber can be resumed - here: if the entry is not stale) -/
@@ -129,12 +184,12 @@ def closeMsgs (t : Nat) : List Pending → List Msg
   | [] => []
   | p :: ps => if p.thread = t then closeMsgs t ps else ⟨p.thread, p.fiber, p.sched, .close⟩ :: closeMsgs t ps
 
-def closeLocal (t : Nat) (g : Nat → Nat) : List Pending → (Nat → Nat) × List (Nat × Kind)
-  | [] => (g, [])
+def closeLocal (t : Nat) (g : Nat → Nat) : List Pending → (Nat → Nat) × List (Nat × Kind) × List Task
+  | [] => (g, [], [])
   | p :: ps =>
     if p.thread = t ∧ g p.fiber = p.sched then
       let r := closeLocal t (bump g p.fiber) ps
-      (r.1, (p.fiber, Kind.close) :: r.2)
+      (r.1, (p.fiber, Kind.close) :: r.2.1, ⟨t, p.fiber, g p.fiber + 1, .wake .close⟩ :: r.2.2)
     else closeLocal t g ps
 
 def close (s : St) (t : Nat) : St :=
@@ -143,14 +198,16 @@ def close (s : St) (t : Nat) : St :=
     let r := closeLocal t s.sched (s.writers ++ s.readers)
     { s with closed := true, writers := [], readers := [],
              flight := s.flight ++ closeMsgs t s.writers ++ closeMsgs t s.readers,
-             sched := r.1, woken := s.woken ++ r.2 }
+             sched := r.1, woken := s.woken ++ r.2.1, runq := s.runq ++ r.2.2 }
 
 /-- janet_thread_chan_cb for message `m` (already read from the pipe) -/
 def cb (cfg : Cfg) (s : St) (m : Msg) : St :=
   if (!cfg.checkSched) || s.sched m.fiber == m.sched then
     match m.kind with
-    | .read x => { s with delivered := s.delivered ++ [(m.fiber, x)], sched := bump s.sched m.fiber }
-    | k => { s with sched := bump s.sched m.fiber, woken := s.woken ++ [(m.fiber, k)] }
+    | .read x => { s with delivered := s.delivered ++ [(m.fiber, x)], sched := bump s.sched m.fiber,
+                          runq := s.runq ++ [⟨m.loop, m.fiber, s.sched m.fiber + 1, .item x⟩] }
+    | k => { s with sched := bump s.sched m.fiber, woken := s.woken ++ [(m.fiber, k)],
+                    runq := s.runq ++ [⟨m.loop, m.fiber, s.sched m.fiber + 1, .wake k⟩] }
   else
     match m.kind with
     | .close => s
@@ -181,14 +238,60 @@ def handle (cfg : Cfg) (s : St) (i : Nat) : St :=
   | some (m, rest) =>
     if (s.flight.take i).all (fun m' => m'.loop != m.loop) then cb cfg { s with flight := rest } m else s
 
+/-- anything that reschedules fiber `f` (`janet_cancel` by ev/cancel or an expired deadline, another select clause firing):
+    `janet_schedule_general` bumps `sched_id`; if the fiber is suspended in a wait, the task that will resume it is queued -/
+def abandon (s : St) (f : Nat) : St :=
+  if s.waiting f then
+    { s with sched := bump s.sched f, runq := s.runq ++ [⟨s.home f, f, s.sched f + 1, .other⟩], abandons := s.abandons + 1 }
+  else { s with sched := bump s.sched f }
+
+/-- janet_loop1, body of the run loop for the popped task `t`: skipped unless `expected_sched_id == fiber->sched_id` -/
+def runTask (cfg : Cfg) (s : St) (t : Task) : St :=
+  if t.sched = s.sched t.fiber then
+    match t.val with
+    | .item x => { s with waiting := setb s.waiting t.fiber false, log := s.log ++ [.got t.fiber x],
+                          sched := if cfg.resumeBumps then bump s.sched t.fiber else s.sched }
+    | _ => { s with waiting := setb s.waiting t.fiber false,
+                    sched := if cfg.resumeBumps then bump s.sched t.fiber else s.sched }
+  else
+    match t.val with
+    | .item x => { s with dropped := s.dropped ++ [(t.fiber, x)] }
+    | _ => s
+
+/-- janet_loop1 pops the `i`-th queued task; enabled only if it is the first of its loop's run queue -/
+def resume (cfg : Cfg) (s : St) (i : Nat) : St :=
+  match extract i s.runq with
+  | none => s
+  | some (t, rest) =>
+    if (s.runq.take i).all (fun t' => t'.thread != t.thread) then runTask cfg { s with runq := rest } t else s
+
 def step (cfg : Cfg) (s : St) : Act → St
-  | .give t f x => give s t f x
-  | .take t f => take s t f
-  | .abandon f => { s with sched := bump s.sched f }
+  | .give t f x => if s.waiting f then s else give s t f x
+  | .take t f => if s.waiting f then s else take s t f
+  | .abandon f => abandon s f
   | .handle i => handle cfg s i
   | .close t => close s t
+  | .resume i => resume cfg s i
 
 def run (cfg : Cfg) (acts : List Act) (s : St) : St := acts.foldl (step cfg) s
+
+/-! ### reading the event log -/
+
+/-- items accepted by gives, in order -/
+def gaveSeq (L : List Ev) : List Item :=
+  L.filterMap (fun e => match e with | .gave _ x => some x | _ => none)
+
+/-- items given by fiber `sd`, in order -/
+def gaveBy (sd : Nat) (L : List Ev) : List Item :=
+  L.filterMap (fun e => match e with | .gave f x => if f == sd then some x else none | _ => none)
+
+/-- items that fiber `r` was resumed with (results of its ev/take calls), in order -/
+def gotSeq (r : Nat) (L : List Ev) : List Item :=
+  L.filterMap (fun e => match e with | .got f x => if f == r then some x else none | _ => none)
+
+/-- all (fiber, item) resumptions, in order -/
+def gotAll (L : List Ev) : List (Nat × Item) :=
+  L.filterMap (fun e => match e with | .got f x => some (f, x) | _ => none)
 
 /-! ## `ev/thread` / janet_ev_threaded_call: janet_thread_body runs `subr` (the whole interpreter + event loop of the new
     thread) and then writes the completion record into the caller's self-pipe; the caller's loop reads it and the callback
